@@ -115,26 +115,26 @@ PROPS['C01'] = dict(
 PROPS['C02'] = dict(
     title='Solver reports Optimal exactly when a feasible matching exists; never errors',
     functions=[LP + 'run', LP + 'run_optimisations', MOD + 'pulp_setup', 'solver:Solver.solve', LP + 'upper_lower_constraints', LP + 'stability_constraints'] + CRIT_FUNCS,
-    lemmas=['SUM/ext', 'SUM/le', 'SUM/const', 'SUM/nonneg', 'C02/size-bound', 'C02/rank-sums-compose', 'C03/freeze-opt'], level='other',
-    level_text=EXACT + 'run: never raises, solves at least once, returns the status of the last solve, only the last solve may have failed; every criterion creates a variable with a fresh literal name (duplicate names raise in PuLP); Solver.solve never raises in either mode and hands LP_Solver.run a fresh problem with all variables the requested options need (Model.pulp_setup).  Witness-in-bounds (the bounds of an objective variable admit the measure of EVERY matching feasible before the criterion, so that linking the variable excludes none - the completeness half of "criteria never turn a feasible instance infeasible") is proved for maxsize, minsize, generous, greedy (the number of students at a rank is a sum over a rank list; the rank lists\' sum identity - required for EVERY weight of pair objects and instantiated inside the function with the variable values - turns it into a filtered sum over all pairs <= sum of the row sums <= number of students), lmb, lsb and for the per-lecturer deviation variables (|load - target| <= upper quota for every feasible matching, given 0 <= lower quota and 0 <= target <= upper quota; the deviation values are bounded by the upper quotas, so their maximum fits under the largest upper quota and their sum under the sum of the upper quotas - the two bounds that defects 1 and 2 had wrong).  For the size criteria: Solver.solve hands run a program whose solutions are 0/1 on the pair variables, add_constraints makes every row a partial assignment (row sums in [0,1], non-negativity by lemma SUM/nonneg for every row), run_optimisations keeps that as an invariant, and C02/size-bound gives 0 <= size <= number of students.  NOT proved deductively (bounded stand-in): witness-in-bounds for the three weighted cost criteria mincost / minsqcost / mincostlsb (symbolic multipliers: nonlinear)',
+    lemmas=['SUM/ext', 'SUM/le', 'SUM/const', 'SUM/nonneg', 'C02/size-bound', 'C02/rank-sums-compose', 'C02/cost-term', 'C02/studentcost-term', 'C02/sqcost-term', 'C02/sq-bound-dominates', 'SUM/scale', 'C02/mincost-bound', 'C02/studentcost-bound', 'C02/sqcost-bound', 'C03/freeze-opt'], level='proof',
+    level_text=EXACT + 'run: never raises, solves at least once, returns the status of the last solve, only the last solve may have failed; every criterion creates a variable with a fresh literal name (duplicate names raise in PuLP); Solver.solve never raises in either mode and hands LP_Solver.run a fresh problem with all variables the requested options need (Model.pulp_setup).  Witness-in-bounds (the bounds of an objective variable admit the measure of EVERY matching feasible before the criterion, so that linking the variable excludes none - the completeness half of "criteria never turn a feasible instance infeasible") is proved for maxsize, minsize, generous, greedy (the number of students at a rank is a sum over a rank list; the rank lists\' sum identity - required for EVERY weight of pair objects and instantiated inside the function with the variable values - turns it into a filtered sum over all pairs <= sum of the row sums <= number of students), lmb, lsb and for the per-lecturer deviation variables (|load - target| <= upper quota for every feasible matching, given 0 <= lower quota and 0 <= target <= upper quota; the deviation values are bounded by the upper quotas, so their maximum fits under the largest upper quota and their sum under the sum of the upper quotas - the two bounds that defects 1 and 2 had wrong).  For the size criteria: Solver.solve hands run a program whose solutions are 0/1 on the pair variables, add_constraints makes every row a partial assignment (row sums in [0,1], non-negativity by lemma SUM/nonneg for every row), run_optimisations keeps that as an invariant, and C02/size-bound gives 0 <= size <= number of students.  For the three weighted cost criteria (symbolic multipliers, nonlinear): lemmas C02/mincost-bound, C02/sqcost-bound, C02/studentcost-bound (one pair costs at most nu*K by a quantifier-free nonlinear term lemma; a row at most K*(row sum) <= K by SUM/scale; all rows at most students*K, which the declared bound dominates) under non-negative multipliers and ranks bounded by the number of rankable agents / the maximum rank - the three bounds defects 1 and 3 had wrong.  With C03/freeze-opt (linking excludes no feasible valuation; the frozen set is non-empty) no criterion turns a feasible program infeasible',
     harness=True, bound='<= 5 students x <= 3 projects x <= 3 lecturers incl. objective-bound stress instances, 0-3 random criteria, real CBC',
     budget={'quick': 30, 'thorough': 400}, trusted=T_LP,
-    assumptions=['witness-in-bounds of the objective variables of mincost / minsqcost / mincostlsb: bounded stand-in only', 'well-formed lecturer quotas (0 <= lower, 0 <= target <= upper) are a precondition of Solver.solve (C09/quota-order for generated files)', 'FLAT/sum assumed (T11)'])
+    assumptions=['well-formed instance: a student rank never exceeds the number of projects, a lecturer rank never the number of students; admissible options: non-negative multipliers', 'by inspection: the criteria postconditions are instances of the hypotheses of C03/freeze-opt (F := feas() before the criterion as a set of valuations)', 'well-formed lecturer quotas (0 <= lower, 0 <= target <= upper) are a precondition of Solver.solve (C09/quota-order for generated files)', 'FLAT/sum assumed (T11)'])
 PROPS['C03'] = dict(
     title='Each optimisation criterion optimises the quantity it is documented to optimise',
-    functions=CRIT_FUNCS + [LP + 'run', LP + 'run_optimisations'], lemmas=['SUM/ext', 'C03/freeze-opt'], level='other',
-    level_text=EXACT + 'per criterion: LINK (objective variable == the documented measure written as sums over the code\'s own lists, with the documented defaults for cut-off and multipliers), FRESH name, FREEZE (perform_optimisation: objective = +-variable, one solve, then variable >= / <= the achieved value), generous / greedy visit exactly ranks R..cut / 1..min(cut,R); LP_Solver.run adds the load-balancing constraints (deviation variable >= |load - target|) whenever one of lmb / lsb / mincostlsb is requested and dispatches every requested criterion to its function.  The set-level step is machine-checked over an uninterpreted sort of valuations (lemma C03/freeze-opt): from LINK, T3 (the solver reports an optimum of the linked program) and FREEZE, the program after the criterion has exactly the optimal part of the linked program as solutions, non-empty; and, GIVEN witness-in-bounds (every feasible valuation has its measure within the declared bounds of the objective variable - C02\'s open obligation), exactly the feasible valuations optimal for the documented measure.  Reading the function postconditions as instances of the lemma\'s hypotheses (F := feas() before the criterion, as a set of valuations) is by inspection',
+    functions=CRIT_FUNCS + [LP + 'run', LP + 'run_optimisations'], lemmas=['SUM/ext', 'C03/freeze-opt', 'C02/mincost-bound', 'C02/studentcost-bound', 'C02/sqcost-bound', 'C02/rank-sums-compose'], level='proof',
+    level_text=EXACT + 'per criterion: LINK (objective variable == the documented measure written as sums over the code\'s own lists, with the documented defaults for cut-off and multipliers), FRESH name, FREEZE (perform_optimisation: objective = +-variable, one solve, then variable >= / <= the achieved value), generous / greedy visit exactly ranks R..cut / 1..min(cut,R); LP_Solver.run adds the load-balancing constraints (deviation variable >= |load - target|) whenever one of lmb / lsb / mincostlsb is requested and dispatches every requested criterion to its function.  The set-level step is machine-checked over an uninterpreted sort of valuations (lemma C03/freeze-opt): from LINK, T3 (the solver reports an optimum of the linked program) and FREEZE, the program after the criterion has exactly the optimal part of the linked program as solutions, non-empty; and, GIVEN witness-in-bounds (every feasible valuation has its measure within the declared bounds of the objective variable - proved for all nine criteria and the deviation variables, see C02), exactly the feasible valuations optimal for the documented measure.  Reading the function postconditions as instances of the lemma\'s hypotheses (F := feas() before the criterion, as a set of valuations) is by inspection',
     harness=True, bound='<= 4 students x <= 3 projects x <= 3 lecturers, one random criterion with random extras, real CBC',
     budget={'quick': 25, 'thorough': 300}, trusted=T_LP,
-    assumptions=['witness-in-bounds (hypothesis of C03/freeze-opt) is established by the bounded stand-in only', 'FLAT/sum assumed (T11)', 'measures are stated over project_lists / lecturer_lists / rank_lists (ModelWF agreement: bounded)'])
+    assumptions=['by inspection: the criteria postconditions (LINK, FREEZE, witness-in-bounds) are instances of the hypotheses of C03/freeze-opt', 'FLAT/sum assumed (T11: chain.from_iterable concatenates)', 'measures are stated over project_lists / lecturer_lists / rank_lists (ModelWF agreement: bounded)'])
 PROPS['C04'] = dict(
     title='Several criteria compose lexicographically in the user-given order',
     functions=[LP + 'run', LP + 'run_optimisations', LP + 'perform_optimisation', LP + 'loadbalancing_constraints', (OPP + 'parse', {'argparse_py': True}), OPP + '_get_ordered_optimisations'],
-    lemmas=['C16/occupy-step', 'C16/chain', 'C16/all-first', 'C16/pigeonhole', 'C03/freeze-opt', 'C04/lex-chain'], level='other',
+    lemmas=['C16/occupy-step', 'C16/chain', 'C16/all-first', 'C16/pigeonhole', 'C03/freeze-opt', 'C04/lex-chain'], level='proof',
     level_text='run_optimisations dispatches the criteria in list order (loop invariant over the symbolic list), each by its contract, stops after the first solve that is not Optimal, and never removes a constraint; perform_optimisation freezes each achieved value; Options_parser.parse puts every requested criterion at index = number of requested criteria with a smaller position (C16).  The set-level conclusion is machine-checked (lemma C04/lex-chain over an uninterpreted sort of valuations): optimising m2 over the optimal part for m1 gives the lexicographic optimum of (m1, m2), and no later criterion worsens an earlier value; its hypotheses are instances of C03/freeze-opt\'s conclusion, read off the contracts by inspection',
     harness=True, bound='<= 4 students x <= 3 projects x <= 3 lecturers, 2-3 random criteria, real CBC',
     budget={'quick': 25, 'thorough': 300}, trusted=T_LP + ['T9 argparse'],
-    assumptions=['witness-in-bounds per criterion (C02) is covered by the bounded stand-in only; the instantiation of the set-level lemmas by the contracts is by inspection'])
+    assumptions=['by inspection: the contracts are instances of the hypotheses of the set-level lemmas (witness-in-bounds per criterion is proved under C02)'])
 PROPS['C05'] = dict(
     title='With stability requested the solver searches exactly the stable matchings',
     functions=[LP + 'stability_constraints', MOD + 'set_lecturer_lists', MOD + 'pulp_setup'],
